@@ -2,12 +2,15 @@
  * (e3_sched.c) and the free-running ThreadSanitizer pass (e3_free.c).  The includer defines CUR
  * (id of the calling thread), MAXT, ARENA, arena[][], apos[], HARNESS, tr[]. */
 /* ---- per-thread deterministic dependencies */
-static void d_rand(void *p, size_t n) { uint8_t *q = p; for (size_t i = 0; i < n; i++) q[i] = (uint8_t)(CUR * 101 + i * 7 + 3); }
+/* H10 ("twin threads"): every thread is given the same answers - the k-th block of its random source and its clock are the same in all
+ * threads - so that anything the library remembers about "the previous call" collides */
+static int TWIN; static int twin_k[MAXT];
+static void d_rand(void *p, size_t n) { uint8_t *q = p; if (TWIN) { int k = twin_k[CUR]++; for (size_t i = 0; i < n; i++) q[i] = (uint8_t)(k * 37 + i * 7 + 3); return; } for (size_t i = 0; i < n; i++) q[i] = (uint8_t)(CUR * 101 + i * 7 + 3); }
 static void d_kdf(const uint8_t *pw, size_t pl, const uint8_t *s, size_t sl, uint64_t it, uint8_t *k, size_t kl) { (void)it; for (size_t i = 0; i < kl; i++) k[i] = (uint8_t)(pw[pl ? i % pl : 0] ^ s[i % sl] ^ (uint8_t)(i * 3)); }
 static void d_mz(void *p, size_t n) { volatile uint8_t *q = p; for (size_t i = 0; i < n; i++) q[i] = 0; }
 static size_t d_nfc(const char *s, polyseed_str o) { if (s >= o && s < o + PSTR) { o[0] = 0; return 0; } memset(o, 0xEE, PSTR); return u_nfc(s, o, CAP); }
 static size_t d_nfkd(const char *s, polyseed_str o) { if (s >= o && s < o + PSTR) { o[0] = 0; return 0; } memset(o, 0xEE, PSTR); return u_nfkd(s, o, CAP); }
-static uint64_t d_time(void) { return R_EPOCH + (uint64_t)(5 + CUR * 300) * R_STEP + 9; }
+static uint64_t d_time(void) { if (TWIN) return R_EPOCH + (uint64_t)5 * R_STEP + 9; return R_EPOCH + (uint64_t)(5 + CUR * 300) * R_STEP + 9; }
 /* H8: one pool shared by all threads that hands the most recently released block to the next request, whoever asks (what a
  * real allocator's free list does); harness state, serialised by the scheduler, part of the state key */
 #define POOL_N 12
@@ -22,8 +25,8 @@ static void pool_release(void *p) {
     free_calls[CUR]++; for (int i = 0; i < 24; i++) if (pool_mem[b][i]) { free_unwiped[CUR]++; break; }
     pool_free[pool_nfree++] = (int)b;
 }
-static uint64_t harness_key(void) { if (!POOLED) return 0; uint64_t h = (uint64_t)pool_fresh; for (int i = 0; i < pool_nfree; i++) h = mix64(h, (uint64_t)pool_free[i]); for (int t = 0; t < MAXT; t++) h = mix64(h, (uint64_t)(free_calls[t] * 16 + free_unwiped[t])); return mix64(h, (uint64_t)pool_bad); }
-static void harness_reset(void) { pool_nfree = pool_fresh = pool_bad = 0; for (int t = 0; t < MAXT; t++) free_calls[t] = free_unwiped[t] = 0; }
+static uint64_t harness_key(void) { if (TWIN) { uint64_t h = 7; for (int t = 0; t < MAXT; t++) h = mix64(h, (uint64_t)twin_k[t]); return h; } if (!POOLED) return 0; uint64_t h = (uint64_t)pool_fresh; for (int i = 0; i < pool_nfree; i++) h = mix64(h, (uint64_t)pool_free[i]); for (int t = 0; t < MAXT; t++) h = mix64(h, (uint64_t)(free_calls[t] * 16 + free_unwiped[t])); return mix64(h, (uint64_t)pool_bad); }
+static void harness_reset(void) { for (int t = 0; t < MAXT; t++) twin_k[t] = 0; pool_nfree = pool_fresh = pool_bad = 0; for (int t = 0; t < MAXT; t++) free_calls[t] = free_unwiped[t] = 0; }
 static const char *harness_note(void) { static char b[160]; b[0] = 0; if (POOLED) snprintf(b, sizeof b, " (shared pool allocator: release callback invoked %d+%d times, %d unwiped, %d blocks still out, %d bad releases)", free_calls[0], free_calls[1], free_unwiped[0] + free_unwiped[1], pool_fresh - pool_nfree, pool_bad); return b; }
 static void *d_alloc(size_t n) { if (POOLED) return pool_alloc(n); void *p = arena[CUR] + apos[CUR]; apos[CUR] += (n + 63) & ~(size_t)63; if (apos[CUR] > ARENA) abort(); memset(p, 0xDD, n); return p; }
 static void d_free(void *p) { if (POOLED) pool_release(p); }
@@ -82,6 +85,10 @@ static void script_h(int HARNESS_, int id, int slot) {
         r = polyseed_decode(PRE_AMB[id & 1], 0, &l, &s); T(slot, (uint64_t)r); if (r == 0) polyseed_free(s); if (r != ST_MULT_LANG && !CONCURRENT) pre_bad = 1;
         s = NULL; r = polyseed_decode_explicit(PRE_AMB[id & 1], 0, polyseed_get_lang(id & 1 ? 9 : 8), &s); T(slot, (uint64_t)r); if (r == 0) { polyseed_store(s, st); Tbuf(slot, st, 32); polyseed_free(s); } else if (!CONCURRENT) pre_bad = 1;
         s = NULL; r = polyseed_decode(PRE_AMB[id & 1], 0, NULL, &s); T(slot, (uint64_t)r); if (r == 0) polyseed_free(s);
+    } else if (HARNESS_ == 10) {        /* twin threads: the same two creates, with the same random blocks and the same clock, in both threads */
+        r = polyseed_create(0, &s); T(slot, (uint64_t)r); if (r == 0) { polyseed_store(s, st); Tbuf(slot, st, 32); }
+        r = polyseed_create(1, &s2); T(slot, (uint64_t)r); if (r == 0) { polyseed_store(s2, st); Tbuf(slot, st, 32); T(slot, polyseed_get_birthday(s2)); }
+        polyseed_free(s); polyseed_free(s2);
     } else if (HARNESS_ == 8) {         /* shared recycling allocator: blocks released by one thread are handed to the other */
         if (id == 0) { r = polyseed_load(PRE_ST[0], &s); T(slot, (uint64_t)r); polyseed_free(s); s = NULL; r = polyseed_create(1, &s); T(slot, (uint64_t)r); polyseed_store(s, st); Tbuf(slot, st, 32); polyseed_free(s); }
         else { r = polyseed_create(0, &s); T(slot, (uint64_t)r); polyseed_store(s, st); Tbuf(slot, st, 32); polyseed_free(s); s = NULL; r = polyseed_load(PRE_ST[1], &s); T(slot, (uint64_t)r); if (r == 0) { T(slot, polyseed_get_birthday(s)); polyseed_free(s); } }
